@@ -764,6 +764,12 @@ impl<'a> Oracle<'a> {
             let View::Bytes { mtime: Some(_), .. } = snap0.views[n] else {
                 continue;
             };
+            // Failures are not cached: an invalid file is legitimately read
+            // again by every lookup.
+            let v0 = snap0.views[n].clone();
+            if !matches!(self.expected_view(&v0, n), Exp::Zone(_)) {
+                continue;
+            }
             let resets = self
                 .run
                 .ops
